@@ -101,6 +101,9 @@ func calleePkgName(c ssa.CallInstruction) (pkg, name string) {
 	} else if o.Object() != nil && o.Object().Pkg() != nil {
 		pkg = o.Object().Pkg().Path()
 	}
+	if o.Object() != nil {
+		return pkg, canonName(o.Object())
+	}
 	return pkg, o.Name()
 }
 
